@@ -407,6 +407,187 @@ theorem create_early_tmp_gone (commit : Bool) (r : Run) (hno : NoTmp r.conn) (hn
             · cases h
             · exact hcm (by rw [← htx]; exact h)
 
+/-! ## converses: the two excluded shapes really leave the temporary table -/
+
+/-- the temporary table exists in the working *and* in the committed state -/
+def TmpBoth (c : Conn) : Prop := TmpSome c ∧ ∃ t, c.committed.tmp = some t
+
+theorem finish_tmpBoth {b : Bool} {x : Run × Option Err} (h : TmpBoth x.1.conn) : (finish b x).committed.tmp ≠ none := by
+  obtain ⟨⟨t, ht⟩, ⟨t', ht'⟩⟩ := h
+  unfold finish; split
+  · simp [Conn.commit, ht]
+  · simp [Conn.rollback, ht']
+
+theorem step_ddl_inTxn {r : Run} {s : Stmt} (hd : s.isDml = false) : (step ct fault r s).1.conn.inTxn = r.conn.inTxn := by
+  cases hs : (step ct fault r s).2 with
+  | some e => rw [step_err_conn hs hd]
+  | none => obtain ⟨_, _, _, htx, _⟩ := step_none hs; rw [htx, hd]; simp
+
+theorem step_tmpIndex_both {r : Run} {ix : Index} (h : TmpBoth r.conn) (htx : r.conn.inTxn = false) :
+    TmpBoth (step ct fault r (.createTmpIndex ix)).1.conn := by
+  cases hs : (step ct fault r (.createTmpIndex ix)).2 with
+  | some e => rw [step_err_conn hs rfl]; exact h
+  | none =>
+    obtain ⟨db, hok, hw, _, hcm⟩ := step_none hs
+    obtain ⟨t, ht⟩ := h.1
+    simp only [applyStmt, ht] at hok
+    obtain ⟨t', _, rfl⟩ := map_ok hok
+    simp only [Stmt.isDml, htx, Bool.or_self, Bool.false_eq_true, if_false] at hcm
+    exact ⟨⟨t', by rw [hw]⟩, ⟨t', by rw [hcm]⟩⟩
+
+theorem execAll_tmpIndex_both (l : List Index) : ∀ (r : Run), TmpBoth r.conn → r.conn.inTxn = false →
+    TmpBoth (execAll ct fault r (l.map .createTmpIndex)).1.conn := by
+  induction l with
+  | nil => intro r h _; simpa [execAll] using h
+  | cons ix rest ih =>
+    intro r h htx
+    have h1 := step_tmpIndex_both (ct := ct) (fault := fault) (ix := ix) h htx
+    have h2 : (step ct fault r (.createTmpIndex ix)).1.conn.inTxn = false := by rw [step_ddl_inTxn rfl]; exact htx
+    simp only [List.map_cons, execAll]
+    split
+    · rename_i r' e heq; rw [heq] at h1; exact h1
+    · rename_i r' heq; rw [heq] at h1 h2; exact ih r' h1 h2
+
+/-- C11-F2 in general: a failure in a later statement of `create_table` leaves the temporary table, in both scopes -/
+theorem stage1_tail_left {r r1 : Run} {e : Err} {s : Schema} {l : List Index} (htx : r.conn.inTxn = false)
+    (h : execAll ct fault r (.createTmp s :: l.map .createTmpIndex) = (r1, some e))
+    (hlast : ∃ ix, r1.trace.getLast? = some (.createTmpIndex ix)) : TmpBoth r1.conn := by
+  simp only [execAll] at h
+  split at h
+  · rename_i ra ea heq
+    have hra : ra = r1 := by cases h; rfl
+    subst hra
+    have ht : ra.trace = r.trace ++ [.createTmp s] := by
+      have := step_trace ct fault r (.createTmp s); rw [heq] at this; exact this
+    obtain ⟨ix, hix⟩ := hlast
+    rw [ht] at hix; simp at hix
+  · rename_i ra heq
+    have hs : (step ct fault r (.createTmp s)).2 = none := by rw [heq]
+    obtain ⟨db, hok, hw, htx', hcm⟩ := step_none hs
+    rw [heq] at hw htx' hcm
+    simp only [Stmt.isDml, htx, Bool.or_self, Bool.false_eq_true, if_false] at htx' hcm
+    have hboth : TmpBoth ra.conn := by
+      simp only [applyStmt] at hok
+      split at hok
+      · cases hok
+      · split at hok
+        · cases hok
+        · cases hok; exact ⟨⟨_, by rw [hw]⟩, ⟨_, by rw [hcm]⟩⟩
+    have := execAll_tmpIndex_both (ct := ct) (fault := fault) l ra hboth htx'
+    rw [h] at this; exact this
+
+theorem execAll_ddl_inTxn (l : List Stmt) : ∀ (r : Run), (∀ s ∈ l, s.isDml = false) →
+    (execAll ct fault r l).1.conn.inTxn = r.conn.inTxn := by
+  induction l with
+  | nil => intro r _; simp [execAll]
+  | cons s rest ih =>
+    intro r hd
+    have h1 := step_ddl_inTxn (ct := ct) (fault := fault) (r := r) (hd s (by simp))
+    simp only [execAll]
+    split
+    · rename_i r' e heq; rw [heq] at h1; exact h1
+    · rename_i r' heq; rw [heq] at h1; rw [ih r' (fun s hs => hd s (by simp [hs])), h1]
+
+theorem stage1_ok_both {r r1 : Run} {s : Schema} {l : List Index} (htx : r.conn.inTxn = false)
+    (h : execAll ct fault r (.createTmp s :: l.map .createTmpIndex) = (r1, none)) : TmpBoth r1.conn := by
+  simp only [execAll] at h
+  split at h
+  · cases h
+  · rename_i ra heq
+    have hs : (step ct fault r (.createTmp s)).2 = none := by rw [heq]
+    obtain ⟨db, hok, hw, htx', hcm⟩ := step_none hs
+    rw [heq] at hw htx' hcm
+    simp only [Stmt.isDml, htx, Bool.or_self, Bool.false_eq_true, if_false] at htx' hcm
+    have hboth : TmpBoth ra.conn := by
+      simp only [applyStmt] at hok
+      split at hok
+      · cases hok
+      · split at hok
+        · cases hok
+        · cases hok; exact ⟨⟨_, by rw [hw]⟩, ⟨_, by rw [hcm]⟩⟩
+    have := execAll_tmpIndex_both (ct := ct) (fault := fault) l ra hboth htx'
+    rw [h] at this; exact this
+
+theorem step_committed_of_inTxn {r : Run} {s : Stmt} (h : (step ct fault r s).1.conn.inTxn = true) :
+    (step ct fault r s).1.conn.committed = r.conn.committed := by
+  cases hs : (step ct fault r s).2 with
+  | some e => exact (step_err_dbs hs).2
+  | none =>
+    obtain ⟨_, _, _, htx, hcm⟩ := step_none hs
+    rw [htx] at h
+    rw [hcm, h]; simp
+
+/-- a failing `try` block leaves the committed state as `create_table` left it -/
+theorem try_err_committed {r r2 : Run} {e : Err} {f : List (ColDef × Option Expr)}
+    (h : execAll ct fault r [.insertSelect f, .dropOld] = (r2, some e)) (htx : r2.conn.inTxn = true) :
+    r2.conn.committed = r.conn.committed := by
+  simp only [execAll] at h
+  split at h
+  · rename_i ra ea heq
+    have hra : ra = r2 := by cases h; rfl
+    subst hra
+    have hs : (step ct fault r (.insertSelect f)).2 = some ea := by rw [heq]
+    have := (step_err_dbs hs).2
+    rw [heq] at this; exact this
+  · rename_i ra heq
+    split at h
+    · rename_i rb eb heq2
+      have hrb : rb = r2 := by cases h; rfl
+      subst hrb
+      have hs2 : (step ct fault ra .dropOld).2 = some eb := by rw [heq2]
+      have hc2 := step_err_conn hs2 rfl
+      rw [heq2] at hc2
+      simp only at hc2
+      have hra : (step ct fault r (.insertSelect f)).1.conn.inTxn = true := by rw [heq]; simp only; rw [← hc2]; exact htx
+      have := step_committed_of_inTxn hra
+      rw [heq] at this
+      simp only at this
+      rw [hc2]; exact this
+    · cases h
+
+/-- C11-F1 in general: an early failure inside the implicit transaction, rolled back, leaves the temporary table -/
+theorem create_rolledback_tmp_left {r : Run} (htx0 : r.conn.inTxn = false)
+    (hearly : Stmt.renameTmp ∉ (create ct fault p r).1.trace)
+    (htx : (create ct fault p r).1.conn.inTxn = true) :
+    (finish false (create ct fault p r)).committed.tmp ≠ none := by
+  unfold create at *
+  cases hst : execAll ct fault r (.createTmp p.newSchema :: p.tmpIndexes.map .createTmpIndex) with
+  | mk r1 e1 =>
+    rw [hst] at hearly htx
+    have htx1 : r1.conn.inTxn = false := by
+      have := execAll_ddl_inTxn (ct := ct) (fault := fault) (.createTmp p.newSchema :: p.tmpIndexes.map .createTmpIndex) r (by
+        intro s hs
+        simp only [List.mem_cons, List.mem_map] at hs
+        rcases hs with rfl | ⟨ix, _, rfl⟩ <;> rfl)
+      rw [hst] at this; rw [this]; exact htx0
+    cases e1 with
+    | some e => simp only at htx; rw [htx1] at htx; cases htx
+    | none =>
+      simp only at hearly htx ⊢
+      have hboth := stage1_ok_both htx0 hst
+      unfold tryBlock at *
+      cases htry : execAll ct fault r1 [.insertSelect p.feeds, .dropOld] with
+      | mk r2 e2 =>
+        rw [htry] at hearly htx
+        cases e2 with
+        | none => simp only at hearly; exact absurd (elseBranch_trace _) hearly
+        | some e =>
+          simp only at htx ⊢
+          have htx2 : r2.conn.inTxn = true := by
+            rw [cleanup_fst, step_ddl_inTxn rfl] at htx; exact htx
+          have hcm2 : r2.conn.committed = r1.conn.committed := try_err_committed htry htx2
+          have hcl : (cleanup ct fault r2 e).1.conn.committed = r2.conn.committed := by
+            rw [cleanup_fst]
+            apply step_committed_of_inTxn
+            rw [step_ddl_inTxn rfl]; exact htx2
+          have hsome : (cleanup ct fault r2 e).2.isNone = false := by
+            cases h : (cleanup ct fault r2 e).2 with
+            | none => exact absurd h (cleanup_snd _ _)
+            | some _ => rfl
+          obtain ⟨_, ⟨t, ht⟩⟩ := hboth
+          simp only [finish, hsome, Bool.or_false, Bool.false_eq_true, if_false, Conn.rollback]
+          rw [hcl, hcm2, ht]; simp
+
 /-! ## a fault at statement `k ≤ index(DROP original)` -/
 
 theorem create_intact_of_fault {r : Run} {k : Nat} (hi : Intact t0 r.conn) (hn : r.n = 0) (hk : fault = some k)
